@@ -33,7 +33,7 @@ Definition f32 (x : float) : float :=
   let c := x * 0x1.0000002p+29 in
   let r := c - (c - x) in if is_nan r || is_infinity r then x else r.
 
-(* binary32 bit pattern of a double that holds a binary32 value (normal range), and back *)
+(* binary32 bit pattern of a double that holds a binary32 value (normal or subnormal), and back *)
 Definition f32_bits (x : float) : Z :=
   match Prim2SF x with
   | S754_zero s => if s then 2147483648 else 0
@@ -44,7 +44,7 @@ Definition f32_bits (x : float) : Z :=
       let nb := Z.log2 (Zpos m) in              (* m in [2^nb, 2^(nb+1)) *)
       let ex := nb + e in                       (* unbiased exponent *)
       let mant := (Zpos m * 2 ^ 23) / 2 ^ nb in    (* 24-bit significand, exact if x is a binary32 value *)
-      (if s then 2147483648 else 0) + (if ex + 127 <=? 0 then (mant * 2 ^ (ex + 126)) / 2 ^ 0 / 1
+      (if s then 2147483648 else 0) + (if ex + 127 <=? 0 then mant / 2 ^ (- (ex + 126))      (* binary32 subnormal: fraction = x * 2^149, exponent field 0 *)
                                        else (ex + 127) * 8388608 + (mant - 8388608))
   end%Z.
 Definition f32_of_bits (b : Z) : float :=
